@@ -152,6 +152,11 @@ def oracle(ctx, extra):
         else:
             doc = gen_docs.noise(r)
         doc = _strip(doc, remove)
+        if i % 6 == 2 and doc:
+            # characters that are legitimate but that no syntax names: control characters, the replacement character, a byte-order mark,
+            # a non-character - in the middle of the text (a text hook that one plugin replaces must keep treating them like the core does)
+            at = r.randrange(len(doc))
+            doc = doc[:at] + r.choice(["\x00", "\x7f", "\ufffd", "\ufeff", "\x01", "\ufffe", "\x1b", "a\x00b"]) + doc[at:]
         if check_one(m, p, others, doc, r.random() < 0.3, r.random() < 0.7, fails):
             n += 1
             nontriv.add((p, doc))
